@@ -110,7 +110,8 @@ def discharge(obligations, timeout_ms=10000, both=False, procs=None, fast=False)
     """Returns list of dict(name, status, info, time, backend) aligned with obligations."""
     jobs = []
     for i, ob in enumerate(obligations):
-        jobs.append((i, to_smt2(ob.hyps, ob.goal, ob.axioms), timeout_ms, both))
+        text = getattr(ob, 'smt2', None) or to_smt2(ob.hyps, ob.goal, ob.axioms)
+        jobs.append((i, text, timeout_ms, both))
     procs = procs or min(16, max(1, os.cpu_count() or 1))
     results = [None] * len(jobs)
     if not jobs:
